@@ -1,9 +1,9 @@
 SPECIFICATION Spec
-CONSTANTS K = 2 SendPuncture = TRUE PunctureFirst = TRUE FollowAll = TRUE MaxId = 80 QuietCalls = TRUE
+CONSTANTS K = 1 SendPuncture = TRUE PunctureFirst = TRUE FollowAll = FALSE MaxId = 60 QuietCalls = TRUE
           APlaces = {"pub", "nat"} CandPlaces = {"pub", "nat", "withA"}
           MaxContactsA = 1 MaxContactsB = 1
           MinContacts = 1 MaxRebinds = 0 Clock0 = 0 Refresh = TRUE Ident16 = TRUE
-          Svcs = {"M"} Phased = FALSE V6N = 0 StyleAware = TRUE SvcWalkable = TRUE
+          Svcs = {"M", "X"} Phased = TRUE V6N = 0 StyleAware = TRUE SvcWalkable = TRUE
 INVARIANT TypeOK
 INVARIANT Reach
 INVARIANT LanMeet
